@@ -3,6 +3,8 @@ import EqsigVerif.Model.Im
 import EqsigVerif.Lemmas.Np
 import EqsigVerif.Lemmas.Im.Velo
 import EqsigVerif.Lemmas.Im.Series
+import EqsigVerif.Lemmas.Im.CavDp
+import EqsigVerif.Lemmas.Im.AriasReal
 /-!
 # C09 — cumulative intensity measures: definition, monotonicity and scaling laws
 
@@ -162,5 +164,115 @@ example : intAbsAcc (1/2 : ℚ) ([1, -2] ++ List.replicate 2 0) = [1/2, 3/2, 3/2
 sample to the first appended zero adds `dt·|a[-1]|/2`. -/
 example : cav (1/2 : ℚ) ([1, -2] ++ List.replicate 2 0) = [0, 3/4, 5/4, 5/4] ∧ cav (1/2 : ℚ) [1, -2] = [0, 3/4] := by
   decide +kernel
+
+/-- C09.d also holds for unit kinetic energy (velocity is constant once the record has ended at zero) -/
+theorem zero_padding_unit_kinetic_energy (dt : α) (a : List α) (m : Nat) (h : a.getLast? = some 0) :
+    ∃ s f, unitKineticEnergy dt a = .ok s ∧ s.getLast? = some f ∧
+      unitKineticEnergy dt (a ++ List.replicate m 0) = .ok (s ++ List.replicate m f) :=
+  unitKineticEnergy_pad dt a m h
+
+example : unitKineticEnergy (1/2 : ℚ) ([1, -2, 3, -8, 0] ++ List.replicate 2 0) =
+    (unitKineticEnergy (1/2 : ℚ) [1, -2, 3, -8, 0]).map (· ++ List.replicate 2 (171/32)) := by decide +kernel
+
+/-! ## the Arias series with its real constant `π/(2·9.81)` -/
+
+/-- C09.a/b at `ℝ` for `calc_arias_intensity = π/(2·9.81) · cumulative_trapezoid(a², dt)`: length,
+monotonicity (`dt ≥ 0`) and final value `π/(2·9.81)·trapz(a²)` -/
+theorem arias_real (dt : ℝ) (hdt : 0 ≤ dt) (a : List ℝ) (h : a ≠ []) :
+    (arias kArias dt a).length = a.length ∧ (arias kArias dt a).Pairwise (· ≤ ·) ∧
+    (arias kArias dt a).getLast? = some (Real.pi / (2 * 9.81) * trapz dt (Np.sq a)) :=
+  ⟨(series_length kArias dt a).1, (series_monotone kArias dt kArias_pos.le hdt a).1,
+   (final_values kArias dt a h).1⟩
+
+example : (0 : ℝ) ≤ 1/2 ∧ ([1, -2, 3] : List ℝ) ≠ [] := ⟨by norm_num, by simp⟩
+
+/-! ## C09.e standardised CAV (`calc_cav_dp`)
+
+Domain: `dt = 1/pps` with `pps ≥ 1` points per second (`points_per_sec = int(1/dt) = pps`) and at least one
+full second of record (`pps + 1 ≤ n`; the property's "at least two seconds" implies it).  On this domain
+`np.arange(start·dt, start·dt + 1, dt)` has exactly `pps` entries in exact arithmetic, so each window
+integrates the first `pps` of its `pps + 1` samples (`pps − 1` panels — the property's "to within one trapezoid
+panel per window"), while the gate looks at all `pps + 1` samples.
+
+* `totalSeconds n pps = int((n−1)·dt)`; `g = a / 9.81`;
+* `winAbsAt g pps s` = `|g[s : s+pps+1]|`; `winValAt g pps s` = `trapz dt (first pps samples of the window)` if
+  some window sample is `≥ 0.025` (`gate`), else `0`;
+* `winVals g pps 0 T` = the list of `winValAt g pps (w·pps)`, `w < T`; `cavDpSeries a pps` = its `cumsum`
+  (the table placed at the integer seconds `0 … T−1`). -/
+
+/-- C09.e closed form ("equals the sum of the windowed `|a|` integrals over qualifying windows"):
+the model output is `np.interp(time, arange(T), cumsum(window values))`. -/
+theorem cavdp_closed_form (a : List ℚ) (pps : Nat) (hp : 0 < pps) (hdur : pps + 1 ≤ a.length) :
+    cavDp a pps = .ok ((List.range a.length).map (fun (i : Nat) =>
+      interpUnit (cumsum (winVals (a.map (· / gAcc)) pps 0 (totalSeconds a.length pps)))
+        ((i : ℚ) * (1 / (pps : ℚ))))) :=
+  cavDp_eq a pps hp (totalSeconds_pos a.length pps hp hdur)
+
+example : cavDp [1/8, 1/8, 1, 1/8, 1/8] 2 = .ok [25/3924, 325/15696, 275/7848, 275/7848, 275/7848] ∧
+    winVals ([1/8, 1/8, 1, 1/8, 1/8].map (· / gAcc)) 2 0 2 = [25/3924, 225/7848] := by decide +kernel
+
+/-- C09.a / C09.e for CAVdp: the series has the record's length, is non-negative and non-decreasing -/
+theorem cavdp_length_nonneg_monotone (a : List ℚ) (pps : Nat) (hp : 0 < pps) (hdur : pps + 1 ≤ a.length) :
+    ∃ s, cavDp a pps = .ok s ∧ s.length = a.length ∧ (∀ y ∈ s, 0 ≤ y) ∧ s.Pairwise (· ≤ ·) := by
+  have hT := totalSeconds_pos a.length pps hp hdur
+  refine ⟨cavDpOut a pps, cavDp_eq a pps hp hT, by simp [cavDpOut], cavDpOut_nonneg a pps hT,
+    cavDpOut_pairwise a pps hT⟩
+
+example : (2 : Nat) + 1 ≤ ([1/8, 1/8, 1, 1/8, 1/8] : List ℚ).length := by decide
+
+/-- C09.e: the final value is the sum of the window values, and it is at most `CAV_final / 9.81` -/
+theorem cavdp_final_le_cav (a : List ℚ) (pps : Nat) (hp : 0 < pps) (hdur : pps + 1 ≤ a.length) :
+    ∃ s f c, cavDp a pps = .ok s ∧ s.getLast? = some f ∧
+      f = Np.sum (winVals (a.map (· / gAcc)) pps 0 (totalSeconds a.length pps)) ∧
+      (cav (1 / (pps : ℚ)) a).getLast? = some c ∧ f ≤ c / gAcc := by
+  have hT := totalSeconds_pos a.length pps hp hdur
+  have hne : a ≠ [] := by rintro rfl; simp at hdur
+  refine ⟨cavDpOut a pps, _, trapz (1 / (pps : ℚ)) (absL a), cavDp_eq a pps hp hT,
+    cavDpOut_getLast a pps hp hT, rfl, ?_, sum_winVals_le_cav a pps hp⟩
+  exact cumtrapz_getLast _ _ (by simpa [absL] using hne)
+
+example : (cavDp [1/8, 1/8, 1, 1/8, 1/8] 2).toOption.bind List.getLast? = some (275/7848) ∧
+    (cav (1/2 : ℚ) [1/8, 1/8, 1, 1/8, 1/8]).getLast? = some (11/16) ∧ (275/7848 : ℚ) ≤ (11/16) / gAcc := by
+  decide +kernel
+
+/-- C09.e: if no one-second window contains a sample reaching `0.025 g`, CAVdp is identically zero -/
+theorem cavdp_zero_below_gate (a : List ℚ) (pps : Nat) (hp : 0 < pps) (hdur : pps + 1 ≤ a.length)
+    (h : ∀ w, w < totalSeconds a.length pps →
+      ∀ x ∈ winAbsAt (a.map (· / gAcc)) pps (w * pps), x < gate) :
+    cavDp a pps = .ok (List.replicate a.length 0) := by
+  have hT := totalSeconds_pos a.length pps hp hdur
+  rw [cavDp_eq a pps hp hT]
+  exact congrArg _ (cavDpOut_zero a pps hT h)
+
+/-- C09.e corollary: every sample below `0.025 g` (`|x|/9.81 < 0.025`) ⇒ CAVdp ≡ 0 -/
+theorem cavdp_zero_of_all_below_gate (a : List ℚ) (pps : Nat) (hp : 0 < pps) (hdur : pps + 1 ≤ a.length)
+    (h : ∀ x ∈ a, |x| / gAcc < gate) : cavDp a pps = .ok (List.replicate a.length 0) := by
+  apply cavdp_zero_below_gate a pps hp hdur
+  intro w _ x hx
+  obtain ⟨y, hy, rfl⟩ := mem_winAbsAt _ _ _ _ hx
+  obtain ⟨z, hz, rfl⟩ := List.mem_map.mp hy
+  have : |z / gAcc| = |z| / gAcc := by rw [abs_div, abs_of_pos (show (0 : ℚ) < gAcc by norm_num [gAcc])]
+  rw [this]; exact h z hz
+
+example : cavDp [1/8, -1/8, 1/8, 31/128, -1/8] 2 = .ok (List.replicate 5 0) ∧
+    (∀ x ∈ ([1/8, -1/8, 1/8, 31/128, -1/8] : List ℚ), |x| / gAcc < gate) := by
+  refine ⟨by decide +kernel, ?_⟩
+  intro x hx
+  simp only [List.mem_cons, List.not_mem_nil, or_false] at hx
+  rcases hx with rfl | rfl | rfl | rfl | rfl <;> norm_num [gAcc, gate, abs_of_neg, abs_of_pos]
+
+/-- C09.e error branches of the model: `pps = 0` (`1/dt` undefined), empty record (`time[-1]`), and less than
+one full second (`np.interp` with an empty table) -/
+theorem cavdp_errors (a : List ℚ) (pps : Nat) :
+    (pps = 0 → cavDp a pps = .error .ZeroDivisionError) ∧
+    (0 < pps → a = [] → cavDp a pps = .error .IndexError) ∧
+    (0 < pps → a ≠ [] → totalSeconds a.length pps = 0 → cavDp a pps = .error .ValueError) := by
+  refine ⟨?_, ?_, ?_⟩
+  · intro h; simp [cavDp, h]
+  · intro h1 h2; subst h2; simp [cavDp, Nat.pos_iff_ne_zero.mp h1]
+  · intro h1 h2 h3; exact cavDp_short a pps h1 h2 h3
+
+example : cavDp [1/8, 1] 2 = .error .ValueError ∧ cavDp [] 2 = .error .IndexError ∧
+    cavDp [1, 2, 3] 0 = .error .ZeroDivisionError := by decide +kernel
 
 end EqsigVerif.Props.C09
